@@ -187,7 +187,7 @@ def scenario_text(script_path, sid):
 
 def graph_replay(ctx, spec_dir, module, cfg, tag, replayer, proj_keys, header_fn=None, merge_re=None,
                  max_paths=None, extra_random=0, must_take=None, tlc_kw=None, replayer_args=None,
-                 replay_timeout=900, key_fn=None, terminal=True, constants=None, env=None, defs=None, variants=None):
+                 replay_timeout=None, key_fn=None, terminal=True, constants=None, env=None, defs=None, variants=None):
     """TLC exhaustive run with state-graph dump; invariants checked by TLC; an edge-covering path
     set is replayed on the implementation through `replayer` (path of a built binary).
     Returns (TlcResult, graph or None)."""
@@ -242,8 +242,16 @@ def graph_replay(ctx, spec_dir, module, cfg, tag, replayer, proj_keys, header_fn
                 f.write("END\n")
                 n += len(body)
                 k += 1
+    if replay_timeout is None:
+        # a scenario that hangs is ended by the replayer's own per-scenario watchdog (replay_common.h), so the total
+        # limit only has to bound the sheer amount of work
+        replay_timeout = 900 if ctx.quick else 14400
     rc, out = vlib.run_cmd([replayer] + (replayer_args or []), stdin_path=script, timeout=replay_timeout, env=env)
     pr = parse_replay_output(out)
+    if pr["summary"] is None and rc == -999 and "\nHANG " not in out:
+        # not a verdict about the code: the replay as a whole ran out of time
+        raise MachineryError("replay of %s exceeded the total time limit of %d s after %d scenarios (no scenario hung)" % (
+            module, replay_timeout, pr["ok"] + len(pr["diverged"]) + len(pr["errors"])))
     if pr["summary"] is None:
         # the replayer died (crash / sanitizer / timeout): find the scenario it was in
         done = pr["ok"] + len(pr["diverged"]) + len(pr["errors"])
